@@ -381,11 +381,7 @@ Fixpoint observe_x (S : sch) (rho : ctx) {struct S} : xbody -> otree :=
       let '(attrs, err) := xb_just_attributes x in
       ONode err (map (fun a => (fst a, xvalue rho (snd a))) attrs) [] (xb_marks x) (xb_unknown x) false
   | Sch attrs blocks =>
-      let subs := (fix go (bl : list (list Z * Z * sch)) : list (list Z * (xbody -> otree)) :=
-                     match bl with
-                     | [] => []
-                     | (t, _, S') :: r => (t, observe_x S' rho) :: go r
-                     end) blocks in
+      let subs := map (fun p : list Z * Z * sch => (fst (fst p), observe_x (snd p) rho)) blocks in
       fun x =>
       let c := xb_content (mkSchema attrs (headers blocks)) x in
       ONode (xc_err c)
